@@ -1117,12 +1117,30 @@ class SCFGIO:
                 _jump_targets=block_edges,
                 **block_info,
             )
+            if block_type == "region":
+                # The subregion represents this region block; regions
+                # directly inside it have this block as their parent.
+                object.__setattr__(block.subregion, "region", block)
+                for inner in block.subregion.graph.values():
+                    if isinstance(inner, RegionBlock):
+                        object.__setattr__(inner, "parent_region", block)
 
             scfg_graph[current_name] = block
             if current_name != exiting:
                 queue.extend(edges[current_name])
 
         scfg = SCFG(scfg_graph, name_gen=name_gen)
+        # The dictionary stores the parent region by name only. Regions at this
+        # level belong to the region this graph represents, which gets back
+        # the recorded name (for nested graphs the caller replaces it by the
+        # enclosing region block).
+        for inner in scfg.graph.values():
+            if isinstance(inner, RegionBlock):
+                if isinstance(inner.parent_region, str):
+                    object.__setattr__(
+                        scfg.region, "name", inner.parent_region
+                    )
+                object.__setattr__(inner, "parent_region", scfg.region)
         return scfg
 
     @staticmethod
